@@ -53,6 +53,8 @@ class RuleResult:
 
     def inst(self, desc, ok=True, nontrivial=True, **extra):
         d = {'rule': self.rule, 'desc': desc, 'ok': ok, 'nontrivial': nontrivial}
+        if ': undecided' in desc:
+            d['undecided'] = True       # neither discharged nor violated (normal-form rules only); never an alarm
         d.update(extra)
         self.instances.append(d)
         return d
